@@ -37,6 +37,12 @@ CONFIGS = [
     # ends fully capped exactly when the target is reached: no open descriptor is left on the returned molecule
     dict(name="fullcap", frags="{#CORE=[$A]OCCO[$A],#CAP=[$B]C(=O)C}", all_atom=True, react={"$A": 1.0, "$B": 0.0},
          cond={"$A": {"$B": 1.0, "$A": 0.0}}, terminal=[], targets=[80], start_fragment="CORE"),
+    # more than a thousand growth steps (beads of mass 1)
+    dict(name="longchain", frags="{#A=[$][#X][$]}", all_atom=False, react={}, cond={}, terminal=[], targets=[1100],
+         masses={"A": 1.0}, seeds=2, growth_only=True),
+    # hetero-aromatic fragments: the hydrogen on a ring nitrogen counts for the mass
+    dict(name="pyrrole", frags="{#VP=[$]CC([$])c1ccc[nH]1,#PY=[$]Cc1ccncc1C[$]}", all_atom=True, react={}, cond={}, terminal=[],
+         targets=[300]),
     dict(name="orders", frags="{#A=[$]=CC[$],#B=[$]=C(F)C=[$],#C=[$]O[$]}", all_atom=True,
          react={}, cond={}, terminal=[], targets=[120, 400]),
     dict(name="dirorders", frags="{#A=[>]=CC[<],#B=[<]=C(N)C[>],#C=[>x]O[<x]=[<]}", all_atom=True,
